@@ -282,6 +282,8 @@ def generate(tier):
                             cases.append(build(shape, focus, assign, ranks, cfg, ctx=ctx))
     # field names that differ by the prefixes the templates use for their bindings (x, _x, __x, ...), and raw identifiers
     from .common import zoo_cases
+    from .common import unsized_cases
+    cases += unsized_cases('C03') + unsized_cases('C03', 'C03p')
     zc = '''    for (i, (a, ta)) in vs.iter().enumerate() {
         for (j, (b, tb)) in vs.iter().enumerate() {
             r.ck(a.partial_cmp(b) == ta.partial_cmp(tb), 0, &|| format!("values #{} and #{}: partial_cmp gives {:?}, #[derive(PartialOrd)] gives {:?}", i, j, a.partial_cmp(b), ta.partial_cmp(tb)));
